@@ -241,13 +241,23 @@ def stream_small(ctx, rng, n):
     stream_referer(ctx, gen_referer_cases(rng, n))
 
 
+USERINFO_SHAPES = ['pu{n}:secret{n}', 'pu{n}', ':token{n}', ':', '', 'pu{n}%3Ax:pw%40y{n}', 'p%40u{n}:s%3Aw{n}', ':p%3A%40{n}', 'pu{n}:',
+                   '%3A:{n}secret', 'pu{n}:pw{n}:more', ':tok%20en{n}']
+
+
+def gen_userinfo(rng):
+    return rng.choice(USERINFO_SHAPES).format(n=rng.randrange(1000))
+
+
 def gen_referer_cases(rng, n):
     cases = []
     for _ in range(n):
         k, child = rc.parse_url(rc.gen_url(rng, simple=True))
-        if rng.random() < 0.4:
-            purl = 'http%s://pu%d:%s@%s/dir/page?x=1' % (rng.choice(['', 's']), rng.randrange(100), rng.choice(['secret', 'pw%40x', 'p%3Aq']) + str(rng.randrange(1000)),
-                                                         rng.choice(CHAIN_HOSTS[:6]))
+        if rng.random() < 0.5:
+            # every shape of user-info: user:pw@, user@, :pw@ (token style, EMPTY user name), :@, @, percent-encoded ':' and '@'
+            # inside either part, IPv6 hosts with user-info
+            purl = 'http%s://%s@%s/dir/page?x=1' % (rng.choice(['', 's']), gen_userinfo(rng),
+                                                   rng.choice(CHAIN_HOSTS[:6] + ['[2001:db8::2]:8080', '[::1]:81', 'a.example:8080']))
         else:
             purl = rc.gen_url(rng)
         k2, parent = rc.parse_url(purl)
@@ -304,7 +314,10 @@ def stream_referer(ctx, cases):
             ctx.disagree('referer', c, rep, real)
         if ref and (parent or '').startswith('https://') and child.scheme == 'http' and ref == parent:
             ctx.fail('referrer-leak', '_add_referrer', c, 'https referrer sent to http URL')
-        if ref and not pre and pinfo is not None and (pinfo.username or pinfo.password):
+        if ref and not pre and '@' in urllib.parse.urlsplit(ref).netloc:
+            ctx.fail('cross-host-credentials', '_add_referrer', c,
+                     'Referer %r (request to %s) carries user-info of the referring page %r' % (ref, child.hostname_with_port, parent))
+        elif ref and not pre and pinfo is not None and (pinfo.username or pinfo.password):
             # credentials of the referring page's host must not travel in ANY field to the linked host
             netloc = urllib.parse.urlsplit(ref).netloc
             secrets = [x for x in (pinfo.password, pinfo.username) if x]
@@ -795,7 +808,8 @@ def check_app_case(ctx, case):
                          % (k, hvals, 'inside the tunnel to %s' % tunnel if tunnel else 'directly', head[:250]))
         elif len(hvals) != 1 or hvals[0] not in (name, '%s:%d' % (name, port)):
             ctx.fail('host-mismatch', where, case, 'request %d sent to %s:%d carries Host %r' % (k, host, port, hvals))
-        referer_clean(ctx, case, fields, 'ItemSession.add_child_url' if case['kind'] == 'referer' else where, k)
+        referer_clean(ctx, case, fields, ('WebProcessorSession._add_referrer' if case['replies'][0].get('status') == 200 else 'ItemSession.add_child_url')
+                      if case['kind'] == 'referer' else where, k)
         for n, v in fields:
             if n.lower() == 'authorization':
                 ctx.tag('app:authorization-sent')
@@ -906,6 +920,17 @@ def gen_app_cases(rng, n_cookie, n_referer, n_auth=0, n_proxy=0, n_cookiefile=0)
             out.append({'stream': 'app', 'kind': 'proxy', 'cookies': 'default', 'hosts': ['a.example'], 'url': 'http://a.example/x',
                         'replies': replies, 'proxy': {'user': puser, 'exclude': ['direct.test']}})
     for i in range(n_referer):
+        if i % 2 == 1:
+            # a page fetched from a URL with user-info (every shape), linking to another host and to its own host: no byte of
+            # the user-info may travel in the Referer of the children
+            ui = USERINFO_SHAPES[(i // 2) % len(USERINFO_SHAPES)].format(n=rng.randrange(1000))
+            host = rng.choice(['a.example', 'a.example:8080', '[2001:db8::2]'])
+            body = b'<html><body><a href="http://b.example/child1">c</a> <a href="http://%s/child2?x=1">d</a></body></html>' % host.encode()
+            replies = [{'status': 200, 'location': None, 'cookies': [], 'mode': 'resp', 'body': body, 'extra': [b'Content-Type: text/html']},
+                       {'status': 200, 'mode': 'resp'}, {'status': 200, 'mode': 'resp'}]
+            out.append({'stream': 'app', 'kind': 'referer', 'cookies': 'default', 'hosts': [host, 'b.example'],
+                        'url': 'http://%s@%s/dir/page' % (ui, host), 'replies': replies, 'recursive': True, 'span_hosts': True})
+            continue
         loc = HOSTILE_LOCATIONS[i % len(HOSTILE_LOCATIONS)] if i < len(HOSTILE_LOCATIONS) else rng.choice(HOSTILE_LOCATIONS)
         body = b'<html><body><a href="http://a.example/child1">c</a> <a href="http://a.example/child2?x=1">d</a></body></html>'
         replies = [{'status': rng.choice([301, 302, 303, 307, 308]), 'location': loc, 'cookies': [], 'mode': 'resp'},
@@ -984,7 +1009,7 @@ def run(ctx):
         check_session_case(ctx, gen_chain_case(srng))
     stream_cookiefile(ctx, ctx.subrng('cookiefile'), ctx.scale(150, 4000))
     arng = ctx.subrng('app')
-    for case in gen_app_cases(arng, ctx.scale(24, 400), ctx.scale(12, 200), ctx.scale(16, 300), ctx.scale(16, 300), ctx.scale(8, 120)):
+    for case in gen_app_cases(arng, ctx.scale(24, 400), ctx.scale(36, 400), ctx.scale(16, 300), ctx.scale(16, 300), ctx.scale(8, 120)):
         check_app_case(ctx, case)
     prng = ctx.subrng('session-proxy')
     for _ in range(ctx.scale(250, 6000)):
